@@ -53,6 +53,8 @@ def full_point(lp):
 def check_lat(case):
     lp = full_point(case['lp'])
     cfg = c02.expand(lp, case['seed'])
+    if c02.invalid_geometry(cfg):
+        return dict(fails=[], execs=0, nontrivial=0)
     cfg['mu'] = lp['mu']
     fails = []
     p = pan.make_panel(cfg)
@@ -97,8 +99,10 @@ def check_lat(case):
             dd = np.sqrt(np.abs(np.diag(Kl)))
             dd[dd == 0] = 1.0
             w = np.linalg.eigvalsh(Kl / np.outer(dd, dd))
-            strict = cfg['sub'] == 'none' and max(cfg['m'], cfg['n']) <= 8
-            if w.min() < -1e-9 or (strict and w.min() <= 1e-12):
+            strict = cfg['sub'] == 'none' and max(cfg['m'], cfg['n']) <= 8 and cfg['model'] != 'kpanel'
+            Sl = S[r0:r0 + nloc, c0:c0 + nloc][np.ix_(act, act)]
+            pd_tol = 1e-9 + np.linalg.norm(RTOL * Sl / np.outer(dd, dd))      # eigenvalue perturbation allowed by the entry-wise tolerance
+            if w.min() < -pd_tol or (strict and w.min() <= 1e-12):
                 fails.append(fail('kM not positive definite on the active amplitudes', sig=None, cfg=cfg, min_eig_scaled=float(w.min())))
         # rigid translation of an unrestrained flat panel: c^T M c = mu h area(sub-interval)
         fl = pan.flags_of(cfg)
